@@ -90,6 +90,48 @@ func checkC05(c *core.Check) {
 	}
 	rng := rand.New(rand.NewSource(c.Seed))
 	rng.Shuffle(len(sets), func(i, j int) { sets[i], sets[j] = sets[j], sets[i] })
+	// every other set of the sample is one in which two templates of equal length meet a literal with a variable and
+	// answer to different methods: a request for the one fits the other up to the method, the router has to back out
+	backOut := func(s tset) bool {
+		for i := range s.Set {
+			for j := range s.Set {
+				if i == j || len(s.Set[i].T) != len(s.Set[j].T) || fmt.Sprint(s.Set[i].Ms) == fmt.Sprint(s.Set[j].Ms) {
+					continue
+				}
+				// (the literal side ends in a variable: its leaf is reached, only the method is wrong)
+				if n := len(s.Set[i].T); s.Set[i].T[n-1].K != "var" {
+					continue
+				}
+				for k := range s.Set[i].T {
+					if s.Set[i].T[k].K == "lit" && s.Set[i].T[k].S != "" && s.Set[j].T[k].K == "var" {
+						return true
+					}
+				}
+			}
+		}
+		return false
+	}
+	{
+		var sel, rest, mixed []tset
+		for _, s := range sets {
+			if backOut(s) {
+				sel = append(sel, s)
+			} else {
+				rest = append(rest, s)
+			}
+		}
+		for len(sel) > 0 || len(rest) > 0 {
+			if len(sel) > 0 {
+				mixed = append(mixed, sel[0])
+				sel = sel[1:]
+			}
+			if len(rest) > 0 {
+				mixed = append(mixed, rest[0])
+				rest = rest[1:]
+			}
+		}
+		sets = mixed
+	}
 	types := []string{"string", "int", "int32", "int64", "double", "float", "bool", "datetime"}
 	nSets := 160
 	if thorough {
@@ -230,6 +272,21 @@ func checkC05(c *core.Check) {
 					for _, vj := range vars {
 						l := pathLex[typeOfVar(ds, t, vj)]
 						ch[vj] = l[rng.Intn(len(l))]
+					}
+					reqs = append(reqs, ch)
+				}
+				// values that are the literal segments of the set's other templates at the same position: the request then
+				// also fits (part of) a sibling template, which the router tries first and has to back out of
+				for mo, o := range sets[si].Set {
+					if mo == mi || len(o.T) != len(m.T) {
+						continue
+					}
+					ch := map[int]string{}
+					for _, vj := range vars {
+						ch[vj] = pathLex[typeOfVar(ds, t, vj)][0]
+						if oj := vj - 1; oj >= 0 && oj < len(o.T) && o.T[oj].K == "lit" && o.T[oj].S != "" {
+							ch[vj] = o.T[oj].S
+						}
 					}
 					reqs = append(reqs, ch)
 				}
